@@ -74,7 +74,11 @@ func execLease(f []string) vlib.Res {
 		for i := range t.slab {
 			t.slab[i] = 0xA5 // the previous response still sitting in the slab
 		}
-		buf := middleware.VerifC10BeginWire(t, size, reserve, written)
+		var tr middleware.Transport = t
+		if avail == -2 {
+			tr = &t.capT // a transport without LeaseWire
+		}
+		buf := middleware.VerifC10BeginWire(tr, size, reserve, written)
 		if buf == nil {
 			return vlib.Res{Impl: "nil", Oracle: "ok", Tags: "nt"}
 		}
